@@ -71,6 +71,7 @@ struct Instance {
     std::vector<EbBufferHeaderType *> held; // packets the app got but has not released yet
     uint64_t inflight_max = 0;
     bool blocked_in_drain = false;
+    bool setup_failed = false;
 };
 
 static void hist(Instance &I, size_t idx, const std::string &op, long ret, uint64_t d0, const J &extra = J()) {
@@ -153,11 +154,15 @@ static void run_program(Instance &I) {
     for (size_t pc = 0; pc < prog.a.size(); pc++) {
         const J &o = prog.a[pc]; std::string op = o.gets("op", ""); std::string nul = o.gets("null", ""); uint64_t d0 = sim_decision();
         bool cnt = counted(op); if (cnt) sim_count_allocs(1);
+        // an application stops using a session whose creation/configuration/initialisation failed: it only tears it down
+        bool needs_handle = !(op == "init_handle" || op == "yield" || op == "session_end" || op == "release" || op == "stream_header_release");
+        if (nul == "" && needs_handle && (!I.handle_valid || (I.setup_failed && op != "deinit" && op != "deinit_handle"))) { hist(I, pc, op, -9999, d0); if (cnt) sim_count_allocs(0); continue; }
         if (op == "init_handle") {
             prefill_cfg(I);
             EbComponentType *hh = (EbComponentType *)(uintptr_t)0xdeadbeefcafe;
             sim_api_enter(); EbErrorType e = svt_av1_enc_init_handle(nul == "handle" ? nullptr : &hh, (void *)(uintptr_t)0x5151, nul == "cfg" ? nullptr : I.cfg); sim_api_exit();
             if (e == EB_ErrorNone && nul != "handle") { I.h = hh; I.handle_valid = true; apply_cfg(I); }
+            if (e != EB_ErrorNone && nul == "") { I.setup_failed = true; if (hh != (EbComponentType *)(uintptr_t)0xdeadbeefcafe && hh != nullptr) oracle_fail("init_handle_failed_but_set_handle", "svt_av1_enc_init_handle failed but left a non-NULL handle"); }
             hist(I, pc, op, e, d0);
         } else if (op == "set_param") {
             EbSvtAv1EncConfiguration save = *I.cfg;
@@ -165,9 +170,10 @@ static void run_program(Instance &I) {
             if (o.has("set")) { for (auto &kv : o["set"].o) cfg_set(*I.cfg, kv.first, kv.second); save = *I.cfg; }
             sim_api_enter(); EbErrorType e = svt_av1_enc_set_parameter(nul == "handle" ? nullptr : I.h, nul == "cfg" ? nullptr : I.cfg); sim_api_exit();
             *I.cfg = save;
+            if (e != EB_ErrorNone && nul == "" && !o.has("bad")) I.setup_failed = true;
             hist(I, pc, op, e, d0);
         } else if (op == "init") {
-            sim_api_enter(); EbErrorType e = svt_av1_enc_init(nul == "handle" ? nullptr : I.h); sim_api_exit(); hist(I, pc, op, e, d0);
+            sim_api_enter(); EbErrorType e = svt_av1_enc_init(nul == "handle" ? nullptr : I.h); sim_api_exit(); if (e != EB_ErrorNone && nul == "") I.setup_failed = true; hist(I, pc, op, e, d0);
         } else if (op == "stream_header") {
             EbBufferHeaderType *sh = nullptr;
             sim_api_enter(); EbErrorType e = svt_av1_enc_stream_header(nul == "handle" ? nullptr : I.h, nul == "out" ? nullptr : &sh); sim_api_exit();
@@ -253,7 +259,7 @@ static void run_program(Instance &I) {
             l.set("mutexes_live", (long long)st->mutexes_created - (long long)st->mutexes_destroyed); l.set("sems_live", (long long)st->sems_created - (long long)st->sems_destroyed);
             uint64_t sites[8], seqs[8]; size_t nlive = sim_live_blocks(sites, seqs, 8); J ls = J::arr(); for (size_t i = 0; i < std::min<size_t>(nlive, 8); i++) { J e = J::arr(); e.push(hex64(sites[i])); e.push(seqs[i]); ls.push(e); } l.set("live_sample", ls);
             I.ledger_sessions.push(l);
-            I.session++; I.eos_sent = I.eos_packet = I.eos_recon = false; I.sent = 0; hist(I, pc, op, 0, d0);
+            I.session++; I.eos_sent = I.eos_packet = I.eos_recon = false; I.sent = 0; I.setup_failed = false; hist(I, pc, op, 0, d0);
         } else { g_result.set("outcome", "HARNESS_ERROR"); g_result.set("detail", "unknown op " + op); finish(); }
         if (cnt) sim_count_allocs(0);
     }
@@ -398,6 +404,7 @@ static void instance_oracles(Instance &I, J &out) {
         // recon matched by display position: k-th decoded picture (display order == packet order) <-> recon whose pts equals the k-th packet's pts
         for (size_t k = 0; k < pics.size() && k < pic_packet.size(); k++) {
             int64_t pts = pk[pic_packet[k]]->pts; const Recon *r = nullptr; int cnt = 0; for (auto *x : rc) if (x->pts == pts) { r = x; cnt++; }
+            if (!r) { for (auto *x : rc) if (x->pts == (int64_t)pic_packet[k]) { r = x; cnt++; } } // the library may label recon buffers by display index instead of pts
             char what[96]; snprintf(what, sizeof what, "display position %zu (pts %lld)", k, (long long)pts);
             if (!r) { oracle_fail("recon_missing", std::string(what) + ": no recon delivered"); continue; }
             if (cnt > 1) oracle_fail("recon_duplicate", std::string(what) + ": more than one recon delivered");
